@@ -98,6 +98,16 @@ def generate(rng, tier):
                 pats = rng.choice([[g], ["*%s" % g[-6:], "!" + g], ["!" + g, "*%s" % g[-6:]], [g, "nothing_*.rs"]])
                 txt += "ignore = [%s]\n" % ", ".join('"%s"' % p for p in pats)
             files[os.path.join(d, rng.choice(["rustfmt.toml", ".rustfmt.toml"]))] = txt
+    # an already formatted input stored with CRLF line endings under newline_style = "Unix": its only mismatch is the
+    # line-ending style (reported through another channel than an ordinary diff)
+    for inp in inputs:
+        if inp["kind"] == "formatted" and rng.chance(40):
+            inp["crlf"] = True
+            d = inp["dir"]
+            cfgs = [p for p in (os.path.join(d, ".rustfmt.toml"), os.path.join(d, "rustfmt.toml")) if p in files]
+            for p in cfgs or [os.path.join(d, "rustfmt.toml")]:
+                txt = "".join(l + "\n" for l in files.get(p, "").split("\n") if l and not l.startswith("newline_style"))
+                files[p] = 'newline_style = "Unix"\n' + txt
     mode = rng.choice(MODES)
     # overlapping inputs: the same file named twice, or a leaf module file also named as an input of its own
     overlap = None
@@ -223,6 +233,8 @@ def execute(case):
             for i in pre:
                 for f in i["files"]:
                     b = core.read_rel(sc.root, f)
+                    if b is not None and i.get("crlf"):
+                        b = b.replace(b"\r\n", b"\n").replace(b"\n", b"\r\n")
                     if b is not None:
                         world["files"][f] = {"b64": _b64(b)}
         known = {f for i in inputs for f in i["files"]}
@@ -281,6 +293,10 @@ def execute(case):
                     if a != b:
                         v.add("C15:multi-vs-single|%s" % mode, "order %s: result for %s differs from its single-input run (input %s); argv=%s" % (list(perm), f, inputs[k]["root"], argv), file=f)
                         break
+            if mode in ("stdout", "check") and not core.abnormal(res) and not any(core.abnormal(single[k][0]) for k in perm):
+                want_out = b"".join(single[k][0].stdout for k in perm)
+                if res.stdout != want_out and sorted(res.stdout.split(b"\n")) == sorted(want_out.split(b"\n")):
+                    v.add("C15:output-order|%s" % mode, "order %s: standard output has the lines of the single-input runs but not in command-line order; argv=%s" % (list(perm), argv))
             if res.exit != want_status and not core.abnormal(res):
                 v.add("C15:exit-status-not-max", "order %s: exit %s, single statuses %s; argv=%s" % (list(perm), res.status(), [s[0].status() for s in single], argv))
             want_lines = sorted(l for s in single for l in s[2])
